@@ -627,6 +627,14 @@ def run_property(pid, tier, seed, jobs=None):
     print("%s tier=%s seed=%d evaluations=%d distinct_nontrivial=%d known_hits=%s excluded=%d inconclusive=%d wall=%.1fs violations=%d"
           % (pid, tier, seed, total.evaluations, len(total.sigs), total.known_hits,
              sum(total.excluded.values()), total.inconclusive, wall, vcount))
+    exc = sum(total.excluded.values())
+    if not vcount and exc > 0.3 * (total.evaluations + exc):
+        # exclusions exist for recorded deviations that make a generated case unusable for THIS property; if most cases end up there the
+        # tree has changed in a way that makes the check vacuous - that must not look like "held on everything explored"
+        top = sorted(total.excluded.items(), key=lambda kv: -kv[1])[:3]
+        print("HARNESS-ERROR %s: %d of %d generated cases were excluded, the check is vacuous on this tree; most frequent reasons: %s"
+              % (pid, exc, total.evaluations + exc, top), file=sys.stderr)
+        return 2
     return 1 if vcount else 0
 
 
